@@ -18,6 +18,7 @@ CHECKS = {
  "C09": ("other", AI + "; range-reduction structure: congruence of the reduced argument, window size, abstract re-execution on the reduced argument", "exact periodicity of sin and cos on |x| < 2^46 (decided). NOT decided: accuracy bound, |result| <= 1", "5 (C09), 6"),
  "C10": ("other", AI + "; summary equivalence for oddness; range-reduction structure for the period; pole paths", "tan odd for every finite x, period phi for 0 <= x < 2^62, NaN exactly at the pole (decided). NOT decided: 2.5 ulp (1+tan^2) accuracy", "5 (C10), 6"),
  "C13": ("other", AI + "; loop unrolling with control-aware joins; shape lemma on the value-numbered float expression", "NaN below 0, 0 at 0, result in [0,2^16] on the domain for both algorithms (decided); < 1 ulp, monotone, exact squares for the std::sqrt algorithm by shape lemma. NOT decided: those three clauses for the abacus loop", "5 (C13), 6"),
+ "C14": ("other", AI + "; summary equivalence (symmetry); per-instruction unsigned-wrap tracking", "symmetry (std::sqrt builds), never NaN/negative, no intermediate wrap in hypot's own arithmetic (one recorded finding: left-shift branch). NOT decided: 2 ulp / 1.5e-4 accuracy; symmetry under the abacus build", "5 (C14), 6, 7"),
  "C15": ("proof", AI + "; region checks and summary equivalence", "floor/ceil bracket, integrality, fixed points, ceil == -floor(-x) on the whole stated domain", "5 (C15)"),
  "C16": ("translation_validation", AI + "; summary equivalence of mixed-type operator vs explicitly promoted program; static_assert type witnesses", "9 carriers x 4 operators x 2 orders + 36 compound forms + double operand order", "5 (C16)"),
  "C17": ("proof", AI + "; summary equivalence / region checks on composed wrappers", "commutativity, a-b==a+(-b), identities, associativity and cancellation on the no-NaN regions; n-fold sum by instances + induction lemma", "5 (C17)"),
